@@ -375,7 +375,10 @@ impl Bitstr {
     }
 
     pub fn detach(self) -> Bitstr {
-        if Rc::strong_count(&self.data) == 1 {
+        if Rc::strong_count(&self.data) == 1 && self.range.start == 0 {
+            // sole owner of a buffer that starts with this value: reuse it
+            // (a value that starts later is rebased like a shared one, so the
+            // result does not depend on who else holds the buffer)
             self
         } else if self.len() == 0 {
             Bitstr::new()
